@@ -791,6 +791,10 @@ class DictItems:
     def sym_iter(self, interp):
         return self.d.items(interp)
 
+    def sym_to_list(self, interp):
+        h = heap_of(interp)
+        return SymSeq(z3.Select(h.dom[self.d.t.name], self.d.ref), self.d.t.ksort, "items", self.d)
+
 
 class DictValues:
     def __init__(self, d):
@@ -846,7 +850,10 @@ class SetRef:
         return SetRef(self.t, r, frozen=True)
 
     def sym_to_tuple(self, interp):
-        return tuple(self.sym_iter(interp))
+        return SymSeq(self.arr(interp), self.t.esort, "set")
+
+    def sym_to_list(self, interp):
+        return SymSeq(self.arr(interp), self.t.esort, "set")
 
     def _other_arr(self, interp, other):
         if isinstance(other, SetRef) and other.t is self.t:
@@ -1157,3 +1164,27 @@ def install(interp):
     interp.builtins[("periodic_table.py", "PERIODIC_TABLE")] = _b_periodic_table()
     interp.builtins["stereomolgraph.periodic_table.PERIODIC_TABLE"] = interp.builtins[("periodic_table.py", "PERIODIC_TABLE")]
     interp.builtins[("graphs/crg.py", "Change")] = ChangeEnum()
+
+
+# ------------------------------------------------------------------------------------------------ lazy sequences
+class SymSeq:
+    """tuple(...) / list(...) of a symbolic set or of dict items: a snapshot (independent of later mutation) whose
+    elements are enumerated only when the code needs them (bounded unrolling) - an invariant-annotated loop uses
+    the membership array directly"""
+
+    def __init__(self, arr, esort, kind="set", source=None):
+        self.arr, self.esort, self.kind, self.source = arr, esort, kind, source
+        self._items = None
+
+    def sym_iter(self, interp):
+        if self._items is None:
+            if self.kind == "set":
+                tmp = SetRef(SET_TYPES["iset" if self.esort == z3.IntSort() else "bset"], None)
+                tmp.arr = lambda it, a=self.arr: a
+                self._items = bounded_elements(interp, tmp)
+            else:
+                self._items = self.source.items(interp)
+        return list(self._items)
+
+    def sym_len(self, interp):
+        return len(self.sym_iter(interp))
